@@ -219,7 +219,7 @@ def check_ann(case: Dict[str, Any]) -> CaseInfo:
 
 def campaigns(tier: str) -> List[Campaign]:
     return [Campaign("breakdown", c05_case(), check, quick=400, thorough=20000, quick_shards=8,
-                     required_classes={"type_overlap": 0.3, "others_bucket": 0.15, "with_memory": 0.2, "multi_rank": 0.1,
+                     required_classes={"activity_on_stream_0": 0.05, "type_overlap": 0.3, "others_bucket": 0.15, "with_memory": 0.2, "multi_rank": 0.1,
                                        "repeated_name": 0.2, "combination_share_below_percentage_rounding": 0.02},
                      sample_view=view),
             Campaign("annotations", ann_case(), check_ann, quick=240, thorough=8000, quick_shards=4,
